@@ -75,11 +75,11 @@ var props = []*core.Property{
 		notCovered: []string{"races inside user-supplied detectors", "linearizability as a property of histories (only the structural single-snapshot condition is decided)"},
 		rules:      []*core.Rule{ruleAtomics, ruleLockset, ruleWriteOnce, ruleSharedAppend, rulePkgState, ruleSnapshot, ruleFreshResults, rulePools}}),
 	mk(pd{id: "C07", level: "proof",
-		levelText:  "Exhaustive: the text detector's per-byte predicate is tabulated over all 256 byte values from its SSA and equals the WHATWG binary-data-byte table; the BOM table is exactly the five marks with no shadowed entry; the scan covers the whole unmodified header; text/plain exists once, under the root, last; children are consulted only after the parent; only the first `limit` bytes reach the walk.",
+		levelText:  "Exhaustive: the text detector's per-byte predicate is tabulated over all 256 byte values from its SSA and equals the WHATWG binary-data-byte table; the BOM table is exactly the five marks with no shadowed entry; the scan covers the whole unmodified header; text/plain exists once, under the root, last; children are consulted only after the parent; only the first `limit` bytes reach the walk and no detector tried before text writes into them.",
 		technique:  "finite-domain evaluation of SSA expression trees over the byte domain; shape rules; tree model",
 		expl:       "decides text-versus-binary for every header and limit",
 		notCovered: []string{},
-		rules:      []*core.Rule{ruleTextPredicate, ruleTextShape, ruleBOMTable, ruleTextNode, ruleWalkDiscipline, ruleLimitSlice, ruleReader}}),
+		rules:      []*core.Rule{ruleTextPredicate, ruleTextShape, ruleBOMTable, ruleTextNode, ruleWalkDiscipline, ruleLimitSlice, ruleReader, ruleInputImmutable}}),
 	mk(pd{id: "C08", level: "other",
 		levelText:  "Necessary conditions of JSON completeness: the whole/truncated criterion table over all order types of (limit, len); failure of an inner value fails the enclosing container; the entry reports the scanner's own counters, the inspected counter moves by +1 only; the recursion cap admits depth 4096; first-token gate and node placement; one limit snapshot.",
 		technique:  "finite-domain tabulation with forking walk; failed-edge propagation rule on the scanner's CFGs; provenance of the entry's results",
